@@ -91,6 +91,26 @@ CHECKS['C15'] = dict(
          'keys.',
     design='4 C15')
 
+CHECKS['C14'] = dict(
+    technique='Hypothesis-generated operation histories against an ordered-'
+              'map model (model-based testing, invariant after every step) + '
+              'exhaustive tables of scalar spellings and (default, value) '
+              'pairs against load_function() / a written-down removal rule',
+    text='Histories of 1-30 has/get/set/remove/rename_attribute, '
+         'has_attribute_type, is_empty, seq_items, make_mapping calls on '
+         'generated mapping nodes (present and absent keys, scalar and node '
+         'values) are mirrored on an ordered-map model and the plain view of '
+         'the node compared after every step; is_scalar/is_mapping/'
+         'is_sequence classify every node; get_value() on ~1000 parsed '
+         'spellings (all notations of int/float/bool/null/str) equals what '
+         'load_function() constructs; set_value(v)/get_value()/is_scalar '
+         'round trip for generated values of the five types; '
+         'remove_attributes_with_default_values over all pairs of a 16-value '
+         'scalar pool (plus overrides, several attributes, node built by '
+         'set_attribute or by a dump) never raises and removes exactly the '
+         'equal same-kind defaults.',
+    design='4 C14')
+
 NOT_YET = 'check not built yet in this session (work in progress)'
 
 
